@@ -67,7 +67,7 @@ func (channel *Channel) connectionStartOk(method *amqp.ConnectionStartOk) *amqp.
 	}
 
 	if method.Mechanism != auth.SaslPlain {
-		channel.conn.close()
+		return amqp.NewConnectionError(amqp.NotAllowed, "unsupported mechanism", method.ClassIdentifier(), method.MethodIdentifier())
 	}
 
 	if !channel.server.checkAuth(saslData) {
@@ -91,8 +91,7 @@ func (channel *Channel) connectionTuneOk(method *amqp.ConnectionTuneOk) *amqp.Er
 	channel.conn.status = ConnTuneOK
 
 	if method.ChannelMax > channel.conn.maxChannels || method.FrameMax > channel.conn.maxFrameSize {
-		channel.conn.close()
-		return nil
+		return amqp.NewConnectionError(amqp.NotAllowed, "negotiated limits exceed the server's", method.ClassIdentifier(), method.MethodIdentifier())
 	}
 
 	channel.conn.maxChannels = method.ChannelMax
